@@ -91,7 +91,9 @@ where
         let start = SystemTime::now();
         let mut request = req;
         let enable_auth = self.app_share_data.sys_config.openapi_enable_auth;
-        let path = request.path();
+        // the router matches the percent-decoded path (`/n%61cos/..` is served as `/nacos/..`),
+        // so the decision has to look at that path, not at the raw request line
+        let path = request.match_info().as_str();
         let is_check_path = if enable_auth {
             (API_PATH.is_match(path) || R_NACOS_API_PATH.is_match(path))
                 && !IGNORE_PATH.contains(&path)
